@@ -622,6 +622,60 @@ class EncFile(Component):
                 'pad=' + ('default' if 'pad' not in cf else 'none' if cf['pad'] == '0' else 'small' if int(cf['pad']) < 60 else 'big'),
                 'start=' + ('0' if cf.get('start', '0') == '0' else 'offset')]
 
+# ------------------------------------------------------------------------------------------------
+# C03 — generator-made valid streams through the real decoder
+# ------------------------------------------------------------------------------------------------
+import subprocess as _sp, os as _os
+
+def driver_gen(kind, seed, n):
+    b = _os.path.join(_vlib.LEAN, '.lake', 'build', 'bin', 'flacdrv')
+    p = _sp.run([b, 'gen', kind, str(seed), str(n)], capture_output=True, text=True, timeout=1800)
+    return [l for l in p.stdout.split('\n') if l.strip()]
+
+class ValidStreams(Component):
+    """valid-by-construction frames/files from the Lean generator (every syntactic alternative chosen
+    independently, residuals derived from target PCM) through FlacStreamReader and all file readers"""
+    name = 'validstreams'
+    ops = ('streamread', 'decfile')
+    def __init__(self, profiles=('release',)):
+        self.profiles = profiles
+    def cases(self, rng, tier, boost):
+        n = self.budget(tier, boost, 1500, 60000)
+        return driver_gen('valid', rng.randint(1, 10 ** 9), n)
+    def oracle(self, case, impl, profile):
+        op, cf = parse_case(case)
+        h, cls, f = parse_outcome(impl)
+        if h == 'panic':
+            return (f'{self.name}:{profile}:panic:{cls}', f'decoder panicked on a valid stream ({profile} profile): {cls}')
+        if op == 'streamread':
+            want = 'F/' + cf['exp']
+            seq = f.get('seq', '').split(';')
+            if seq[:1] != [want] or seq[1:] != ['E/Io(UnexpectedEof)']:
+                return (f'{self.name}:frame-misdecoded', 'FlacStreamReader did not return exactly the frame the format defines: ' + ';'.join(seq)[:160])
+            return None
+        reader = cf['reader']
+        if reader == 'verify':
+            if h != 'ok' or f.get('verified') != cf['expverify']:
+                return (f'{self.name}:verify-{cf["expverify"]}', f'verify_reader: expected {cf["expverify"]}, got {impl[:80]}')
+            return None
+        if h != 'ok':
+            return (f'{self.name}:valid-file-rejected:{cls}', f'a valid file was rejected by the {reader} reader: {impl[:160]}')
+        want = ints(cf['exp'])
+        if reader == 'byte':
+            got = f.get('bytes', '')
+            wantb = pcm_bytes(want, int(cf['bps']), cf.get('endian') == 'be').hex()
+            if got != wantb:
+                return (f'{self.name}:file-misdecoded:byte', 'byte reader output differs from the samples the format defines')
+        else:
+            if ints(f.get('pcm', '-')) != want:
+                return (f'{self.name}:file-misdecoded:{reader}', f'{reader} reader output differs from the samples the format defines')
+        return None
+    def nontrivial(self, case, impl):
+        return impl.startswith('ok') and len(case) > 80
+    def classify(self, case, impl):
+        op, cf = parse_case(case)
+        return [op + ('/' + cf.get('reader', '') if op == 'decfile' else '')]
+
 PROPS = {}
 NOT_YET = {}
 
@@ -781,4 +835,26 @@ PROPS['C09'] = dict(
          'the same filter to the same triples; the frame walk that produces the triples is covered by the correspondence.',
     trusted_base=COMMON_TRUST,
     assumptions=['frame byte sizes are taken from the finished file'],
+)
+
+PROPS['C03'] = dict(
+    module='FlacModel.Props.C03',
+    theorems=['Flac.C03.wrapS32_add_wrap', 'Flac.C03.wrap_add_correct', 'Flac.C03.predict_refines_spec', 'Flac.C03.unfold_is_zigzag',
+              'Flac.C03.rchunk_rfc', 'Flac.C03.decLayout_eq_rfc', 'Flac.C03.leftside_refines_spec', 'Flac.C03.sideright_refines_spec',
+              'Flac.C03.midside_refines_spec', 'Flac.C03.wide_leftside_refines_spec', 'Flac.C03.md5_verify_iff'],
+    components=[ValidStreams(('release', 'checked'))],
+    rule='1500 (quick) / 60000 (thorough) streams from the Lean generator: blocking strategy, every block-size and sample-rate coding incl. uncommon 8/16-bit and '
+         'non-canonical ones, STREAMINFO-referenced depths 4-32, coded numbers up to 2^36-1 in minimal and non-minimal length, per-subframe CONSTANT/VERBATIM/FIXED 0-4/LPC '
+         '1-32 with precision up to 15 and shift 0-15, wasted bits on any channel incl. side channels, RICE and RICE2 at any depth, partition orders up to the legal '
+         'maximum, Rice/escaped/zero-width partitions, all four channel assignments incl. 33-bit side; residuals derived from target PCM with exact arithmetic; '
+         'single frames go through FlacStreamReader, files through the byte/sample/iterator/channel readers and verify_reader (with right, wrong and absent MD5), '
+         'in the optimised and the overflow-checked profile; the generator itself is validated by the L1 model on every case',
+    claim='In both build profiles: wrap_add_correct / predict_refines_spec (the prediction loop equals the RFC reconstruction whenever the reconstructed samples fit 32 bits, '
+          'even when predictions do not - two\'s-complement wrap is additive), unfold_is_zigzag (u32 Rice join = RFC zig-zag inverse within the RFC residual range), '
+          'decLayout_eq_rfc (the rchunks-based layout is the RFC layout for every RFC-legal partition order), {leftside,sideright,midside}_refines_spec and the 33-bit '
+          'wide_leftside_refines_spec (channel reconstruction = RFC formulas, no trap), md5_verify_iff.',
+    note='The composition into one theorem over whole serialized frames (impl_refines_spec: parse of Frame.serialize) is not mechanised; the whole-frame statement is '
+         'exhibited on generated valid streams, where the implementation, the L1 model and the expected PCM coincide. Variable-blocksize numbering is parsed and ignored by the crate.',
+    trusted_base=COMMON_TRUST + ['Driver/Gen.lean (generator of valid streams), validated per case against the L1 model'],
+    assumptions=['valid stream: every value the format defines fits its declared width'],
 )
